@@ -652,6 +652,23 @@ func c20gcs(c *vf.Ctx, i int) {
 		c.Inconclusive("gcs-build-failed")
 		return
 	}
+	// The sequential answers come from a SEPARATE filter object built from
+	// the same data, so that the shared object's very first queries happen
+	// concurrently (lazily built internal state would otherwise be warmed up).
+	var fseq *gcs.Filter
+	if !c.Call("gcs.BuildGCSFilter", nil, func() { fseq, err = gcs.BuildGCSFilter(P, M, key, data) }) || err != nil {
+		c.Inconclusive("gcs-build-failed")
+		return
+	}
+	if i%2 == 1 {
+		// every other case shares a freshly deserialised filter instead
+		if nb, e := fseq.NBytes(); e == nil {
+			if f2, e2 := gcs.FromNBytes(P, M, nb); e2 == nil {
+				f = f2
+				c.Inc("gcs_shared_filter_deserialised")
+			}
+		}
+	}
 	type query struct {
 		items [][]byte
 		one   []byte
@@ -672,13 +689,13 @@ func c20gcs(c *vf.Ctx, i int) {
 			}
 		}
 		q.one = q.items[0]
-		q.want[0], _ = f.Match(key, q.one)
-		q.want[1], _ = f.MatchAny(key, q.items)
-		q.want[2], _ = f.ZipMatchAny(key, q.items)
-		q.want[3], _ = f.HashMatchAny(key, q.items)
+		q.want[0], _ = fseq.Match(key, q.one)
+		q.want[1], _ = fseq.MatchAny(key, q.items)
+		q.want[2], _ = fseq.ZipMatchAny(key, q.items)
+		q.want[3], _ = fseq.HashMatchAny(key, q.items)
 	}
-	wantBytes, _ := f.Bytes()
-	wantN, _ := f.NBytes()
+	wantBytes, _ := fseq.Bytes()
+	wantN, _ := fseq.NBytes()
 	wantBytes = append([]byte{}, wantBytes...)
 	wantN = append([]byte{}, wantN...)
 	const G = 32
